@@ -6,6 +6,7 @@
 #include <sys/stat.h>
 #include "esl_alphabet.h"
 #include "esl_random.h"
+#include "esl_rand64.h"
 #include "esl_randomseq.h"
 #include "esl_msa.h"
 #include "esl_msashuffle.h"
@@ -13,6 +14,7 @@
 #include "esl_vectorops.h"
 
 static ESL_RANDOMNESS *R;
+static ESL_RAND64 *R64;
 static ESL_ALPHABET *ABC_DNA, *ABC_AA;
 /* A case takes milliseconds. A shuffler that no longer terminates is cut off after 8 s and reported as a fault of that case
  * (the process dies by SIGALRM). Each cut-off is recorded in a file in the run's private scratch directory (the cwd);
@@ -26,7 +28,7 @@ static void on_alarm(int sig)
   signal(SIGALRM, SIG_DFL); raise(SIGALRM);
 }
 static void h_case_begin(void) { struct stat st; h_skip = (stat("c18_hangs", &st) == 0 && st.st_size >= 3); signal(SIGALRM, on_alarm); alarm(8); }
-static void h_case_end(void) { alarm(0); if (R) esl_randomness_Destroy(R); R = NULL; }
+static void h_case_end(void) { alarm(0); if (R) esl_randomness_Destroy(R); R = NULL; if (R64) esl_rand64_Destroy(R64); R64 = NULL; }
 
 static ESL_ALPHABET *get_abc(void)
 {
@@ -104,6 +106,24 @@ static void h_op(void)
 
   if (h_skip) { h_out("skipped-after-hangs"); return; }
 
+  if (!strcmp(op, "seed64")) { if (R64) esl_rand64_Destroy(R64); R64 = esl_rand64_Create(h_argu("s", 1)); h_out("ok"); return; }
+  if (!strcmp(op, "peek64")) { if (!R64) h_out("bad-op"); else h_out("ok %" PRIu64, esl_rand64(R64)); return; }
+  if (!strcmp(op, "dshuffle64") || !strcmp(op, "fshuffle64") || !strcmp(op, "ishuffle64") || !strcmp(op, "lshuffle64")) {
+    char **f, *dup; const char *vv = h_arg("v"); int n, i; char num[24];
+    double *dv; float *fv; int *iv; int64_t *lv;
+    if (!R64) { h_out("bad-op"); return; }
+    n = (vv && strcmp(vv, "-")) ? split_commas(vv, &f, &dup) : (f = NULL, dup = NULL, 0);
+    dv = malloc(sizeof(double) * (n + 1)); fv = malloc(sizeof(float) * (n + 1)); iv = malloc(sizeof(int) * (n + 1)); lv = malloc(sizeof(int64_t) * (n + 1));
+    for (i = 0; i < n; i++) { int x = atoi(f[i]); dv[i] = x; fv[i] = (float) x; iv[i] = x; lv[i] = x; }
+    if (op[0] == 'd') esl_vec_DShuffle64(R64, dv, n); else if (op[0] == 'f') esl_vec_FShuffle64(R64, fv, n);
+    else if (op[0] == 'i') esl_vec_IShuffle64(R64, iv, n); else esl_vec_LShuffle64(R64, lv, n);
+    ob_reset(); ob_add("ok ");
+    for (i = 0; i < n; i++) { sprintf(num, "%s%d", i ? "," : "", op[0] == 'd' ? (int) dv[i] : op[0] == 'f' ? (int) fv[i] : op[0] == 'i' ? iv[i] : (int) lv[i]); ob_add(num); }
+    if (n == 0) ob_add("-");
+    h_out("%s", ob);
+    free(dv); free(fv); free(iv); free(lv); free(f); free(dup);
+    return;
+  }
   if (!strcmp(op, "seed") || !strcmp(op, "seedfast")) {
     if (R) esl_randomness_Destroy(R);
     R = !strcmp(op, "seed") ? esl_randomness_Create((uint32_t) h_argu("s", 1)) : esl_randomness_CreateFast((uint32_t) h_argu("s", 1));
@@ -120,6 +140,43 @@ static void h_op(void)
     return;
   }
 
+  if (!strcmp(op, "sample")) {     /* esl_rsq_Sample: pre=0 lets the routine allocate, pre=1 passes caller storage */
+    int L = (int) h_argi("L", 0), pre = (int) h_argi("pre", 0); char *sp = NULL, *own = NULL;
+    if (pre) { own = malloc(L + 1); memset(own, 0x77, L + 1); sp = own; }
+    status = esl_rsq_Sample(R, (int) h_argi("flag", 0), L, &sp);
+    if (status != eslOK) { h_out("%s%s", h_status(status), (!pre && sp != NULL) ? "-but-pointer-set" : ""); }
+    else if (sp == NULL || (pre && sp != own)) h_out("ok-but-bad-pointer");
+    else if (sp[L] != 0) h_out("ok-but-no-nul");
+    else h_out("ok %s", h_hex(sp, L));
+    if (pre) free(own); else if (status == eslOK) free(sp);
+    return;
+  }
+  if (!strcmp(op, "sampledirty")) {   /* esl_rsq_SampleDirty: p provided / p=none ret=0 (internal) / p=none ret=1 (returned to the caller) */
+    ESL_ALPHABET *abc = get_abc(); int L = (int) h_argi("L", 0), K, i; char **f = NULL, *dup = NULL; double *pd = NULL, *pp = NULL; ESL_DSQ *d;
+    const char *pv = h_arg("p"); int pnone = (!pv || !strcmp(pv, "none")), ret = (int) h_argi("ret", 0);
+    d = malloc(L + 2); memset(d, 0x77, L + 2);
+    if (!pnone) {
+      K = split_commas(pv, &f, &dup);
+      if (K != abc->Kp) { h_out("bad-op"); free(f); free(dup); free(d); return; }
+      pd = malloc(sizeof(double) * K);
+      for (i = 0; i < K; i++) { uint64_t u = strtoull(f[i], NULL, 16); memcpy(&pd[i], &u, 8); }
+      pp = pd;
+      status = esl_rsq_SampleDirty(R, abc, &pp, L, d);
+      if (status == eslOK && pp != pd) h_out("ok-but-p-replaced"); else out_status_or(status, h_hex(d, L + 2));
+    } else if (!ret) {
+      status = esl_rsq_SampleDirty(R, abc, NULL, L, d);
+      out_status_or(status, h_hex(d, L + 2));
+    } else {
+      status = esl_rsq_SampleDirty(R, abc, &pp, L, d);
+      if (status != eslOK || pp == NULL) h_out("%s", status == eslOK ? "ok-but-no-p" : h_status(status));
+      else { char num[24]; ob_reset(); ob_add("ok "); ob_add(h_hex(d, L + 2)); ob_add(" p=");
+             for (i = 0; i < abc->Kp; i++) { uint64_t u; memcpy(&u, &pp[i], 8); sprintf(num, "%s%" PRIx64, i ? "," : "", u); ob_add(num); }
+             h_out("%s", ob); }
+      free(pp);
+    }
+    free(d); free(pd); free(f); free(dup);
+    return;
+  }
   /* ---------------- text sequence ops ---------------- */
   if (!strcmp(op, "cshuffle") || !strcmp(op, "cshuffledp") || !strcmp(op, "ckmers") || !strcmp(op, "cwindows") ||
       !strcmp(op, "creverse") || !strcmp(op, "cmarkov0") || !strcmp(op, "cmarkov1")) {
